@@ -213,6 +213,26 @@ int main(int argc, char** argv) {
             // never touches its boundary: every prepared fast path is decided by point-in-area tests alone, the last of which has to look at EVERY
             // ring of the prepared geometry.  Three times out of four the multi-ring geometry is the prepared one.
             A = nc.T; B = nc.B; keepOrder = r.chance(50); }
+        else if (r.chance(5)) {
+            // an axis-parallel RECTANGLE (the argument for which Geometry::intersects takes the rectangle fast path) inside the bounding box of a
+            // NON-CONVEX hole: a tongue (or two) of polygon material pokes into the hole from one side; the rectangle's corners lie in the hole, off
+            // the shell, and the rectangle crosses the tongue, reaches into it, just misses it, or touches it — the hole rings decide
+            long a = r.range(1, 2), W = r.range(7, 10), H = r.range(6, 9), S0 = a, S1 = a + W, T1 = a + H;          // hole box [S0,S1] x [a,T1]
+            long t0 = S0 + r.range(2, (int) W - 4), t1 = t0 + r.range(1, 2), tb = a + r.range(1, (int) H - 3);         // tongue [t0,t1] x [tb,T1] from the top
+            std::vector<IPt> shell = {{0, 0}, {S1 + a, 0}, {S1 + a, T1 + a}, {0, T1 + a}, {0, 0}};
+            std::vector<IPt> hole = {{S0, a}, {S1, a}, {S1, T1}, {t1, T1}, {t1, tb}, {t0, tb}, {t0, T1}, {S0, T1}, {S0, a}};
+            if (r.chance(50)) std::reverse(hole.begin(), hole.end());
+            GElem pe; pe.kind = 2; pe.rings.push_back(shell); pe.rings.push_back(hole);
+            A = GGeom{}; A.container = r.chance(25) ? 2 : 0; A.elems.push_back(pe);
+            if (A.container == 2 && r.chance(50)) { GElem q; q.kind = 0; q.rings.push_back({IPt{S1 + a + 2, 1}}); A.elems.push_back(q); }
+            long rx0, rx1, ry0, ry1; int how = (int) r.below(4);
+            ry0 = tb + (how == 2 ? -1 : 0) + (tb + 1 < T1 - 1 ? r.range(0, 0) : 0); if (how != 2) ry0 = std::min(T1 - 2, tb + r.range(0, 1)); ry1 = std::min(T1 - 1, ry0 + r.range(1, 2)); if (ry1 <= ry0) ry1 = ry0 + 1;
+            if (how == 0) { rx0 = S0 + 1; rx1 = S1 - 1; }                                   // crosses the tongue from side to side
+            else if (how == 1) { rx0 = S0 + 1; rx1 = t0 + (t1 > t0 + 1 ? 1 : 0); if (rx1 <= rx0) rx1 = rx0 + 1; }      // reaches into (or touches) the tongue from the left
+            else if (how == 2) { rx0 = S0 + 1; rx1 = S1 - 1; ry1 = tb; ry0 = std::max(a + 1 - 1, tb - r.range(1, 2)); if (ry0 >= ry1) ry0 = ry1 - 1; if (ry0 <= a) { ry0 = a; } }   // below the tongue: touches its tip or misses it
+            else { rx0 = t1 + 1; rx1 = S1 - 1; if (rx1 <= rx0) { rx0 = S0 + 1; rx1 = t0 - 1; } if (rx1 <= rx0) rx1 = rx0 + 1; }  // beside the tongue, in the hole
+            B = GGeom{}; B.container = 0; { GElem re; re.kind = 2; re.rings.push_back({{rx0, ry0}, {rx1, ry0}, {rx1, ry1}, {rx0, ry1}, {rx0, ry0}}); B.elems.push_back(re); }
+            keepOrder = r.chance(50); out.count("family_rectangle_in_tongued_hole"); }
         else if (r.chance(4)) {
             // a mixed-dimension collection (polygon + line + maybe a point) and a partner lying entirely on its LOWER-dimensional part:
             // points on the line element / equal to the point element, or a chain along the line — the situation in which nothing but the
